@@ -161,6 +161,11 @@ func regStd() {
 		st.Emit("IO.ReadAll", []Value{c.Args[0]}, []Value{&BytesV{T: b}, err}, ex.pos(c.Pos))
 		return one(st, &TupleV{V: []Value{&BytesV{T: b}, err}})
 	})
+	regEnv("net/smtp.SendMail", "smtp.SendMail(addr, auth, from, to, msg): effect (event SMTP.SendMail(addr, from, to) -> err); arbitrary error", func(ex *Executor, st *State, c *callCtx) []callResult {
+		err := ex.freshErr(st, "smtp")
+		st.Emit("SMTP.SendMail", []Value{c.Args[0], c.Args[2], c.Args[3]}, []Value{err}, ex.pos(c.Pos))
+		return one(st, err)
+	})
 	regEnv("(*net/http.Client).Get", "client.Get(url): a response, or nil and an error (event HTTP.Get(url) -> (resp, err))", func(ex *Executor, st *State, c *callCtx) []callResult {
 		resp, err := ex.Fresh("resp", SInt), ex.freshErr(st, "httpget")
 		st.Fact(Eq(isNilT(err), nonNil(resp)))
